@@ -8,7 +8,9 @@ import (
 	"log"
 	"os"
 	"sync/atomic"
+	"time"
 
+	"verif/stuck"
 	"verif/wk"
 )
 
@@ -37,6 +39,18 @@ func main() {
 	// qiloop logs every dropped message: keep stderr for crashes and race reports
 	log.SetOutput(ioutil.Discard)
 	c := wk.Parse(os.Args[1], os.Args[2:])
+	if c.Shard == 0 && c.Only < 0 {
+		// self-test of the quiescence detector (the oracle for "never returns"): with every helper
+		// goroutine of this process running, a deliberately blocked goroutine must be declared stuck
+		done, block := make(chan struct{}), make(chan struct{})
+		go func() { <-block; close(done) }()
+		if v, dump := stuck.Wait(done, nil, time.Minute); v != stuck.Stuck {
+			fmt.Fprintf(os.Stderr, "SELFTEST: the quiescence detector did not report a blocked goroutine (verdict %v)\n%s\n", v, dump)
+			os.Exit(5)
+		}
+		close(block)
+		c.Count("quiescence_detector_selftest_passed", 1)
+	}
 	f(c)
 	c.Done()
 }
